@@ -32,11 +32,7 @@ func safeOp(f family, args []string) (out string) {
 			if os.Getenv("VERIF_PANIC_TRACE") != "" {
 				fmt.Fprintf(os.Stderr, "panic: %v\n%s\n", r, debug.Stack())
 			}
-			msg := strings.ReplaceAll(fmt.Sprint(r), "\n", " ")
-			if len(msg) > 80 {
-				msg = msg[:80]
-			}
-			out = "panic " + msg
+			out = "panic"
 		}
 	}()
 	return f.op(args)
